@@ -219,10 +219,13 @@ class NPr:
 
     isclose_log = []
 
+    sqrt_args = []
+
     def sqrt(self, a):
         if isinstance(a, SReal):
             r = UF("SQRT", [a])
             Ctx.cur.assume(r.e >= 0)
+            NPr.sqrt_args.append(a.e)      # domain obligation: a negative argument is a NaN scale
             return r
         if isinstance(a, np.ndarray) and a.dtype == object:
             out = np.empty(a.shape, dtype=object)
@@ -376,6 +379,7 @@ def work(P, item):
         x = obj((n,))
         y = np.array([A * v + b for v in x], dtype=object)
         del APPS[:]
+        NPr.sqrt_args = []
         NPr.exclude_band = True
         return af, A, b, x, y
 
@@ -393,7 +397,12 @@ def work(P, item):
                 want = A * sx + b
             ax = contract_instances(list(APPS), sorted({af, abs(af)}), [b.e, z3.RealVal(0)])
             nm = f"equivariance[{what} {method}, n={n}, a={af}]: {what}(a*x+b) = " + ("|a|*scale(x)" if what == "scale" else "a*loc(x)+b")
-            return [(nm, differs(sy, want), dict(kind="equiv", what=what, method=method, n=n, a=[af.numerator, af.denominator]), ax)]
+            obl_ = [(nm, differs(sy, want), dict(kind="equiv", what=what, method=method, n=n, a=[af.numerator, af.denominator]), ax)]
+            if NPr.sqrt_args:
+                # finiteness: every square root is taken of a non-negative quantity (covariances may have either sign)
+                obl_.append((f"finite[{what} {method}, n={n}]: no square root of a negative value", z3.Or([t < 0 for t in NPr.sqrt_args]),
+                             dict(kind="finite", method=method, n=n), ()))
+            return obl_
         if kind == "zequiv":
             _, lm, sm, n, a = item
             af, A, b, x, y = equiv_setup(n, a)
